@@ -85,7 +85,7 @@ def own_pubrel(F, R, ver):
         if r:
             sb, tg, oth = r
             some_t = tg.get(1, oth)
-            ok = all(edge_dominates(d, sb, some_t, x) for x, _ in rels) and bool(rels) and not (set(d.returns()) & d.reachable(some_t, avoid={x for x, _ in rels} | {tg.get(0, oth)}))
+            ok = all(edge_dominates(d, sb, some_t, x) for x, _ in rels) and bool(rels) and not (set(d.returns()) & d.reachable(some_t, avoid={x for x, _ in rels}))
     R.ob('C14.own-pubrel', '%s|PublishReceived::drop|releases-iff-not-taken' % ver, ok, 'dropping the receipt must write its PUBREL exactly when release() has not taken the packet/id')
     rl = F.one(r'^%s::sink::PublishReceived::release::\{closure#0\}$' % ver)
     takes = [bi for bi, t in rl.calls_to(r'^std::option::Option::<T>::take$')]
